@@ -53,7 +53,7 @@ let () =
       if not (List.for_all pes_ok peses) then Buffer.add_string why "pes_ok ";
       if flat <> evs then Buffer.add_string why "flat ";
       if List.length insts <> List.length ims then Buffer.add_string why "len ";
-      List.iter (fun (_, u) -> if not (if auto then unselected_ok u else (dead_ok mag pn u || neutral_unit mag u)) then Buffer.add_string why "pre ") pre;
+      List.iter (fun (_, u) -> if not (if auto then unselected_ok u else (dead_ok mag pn u || desig_ok mag u)) then Buffer.add_string why "pre ") pre;
       List.iteri (fun k (i, im) ->
         if not (is_our_header mag pn i.i_cs im.im_hdr) then Buffer.add_string why (Printf.sprintf "hdr%d " k);
         List.iter (fun (row, sp) -> if not (rowspec_ok sp) then Buffer.add_string why (Printf.sprintf "rowspec%d " k)) i.i_rows;
@@ -62,11 +62,25 @@ let () =
           let rows = ref i.i_rows in
           List.iter (fun (_, (f, u)) ->
             if f then (match !rows with (row, sp) :: rs -> (if not (is_our_row mag row (row_cells sp) u) then Buffer.add_string why "ROW "); rows := rs | [] -> Buffer.add_string why "NOROW ")
-            else if not (benign mag pn u || neutral_unit mag u) then Buffer.add_string why (Printf.sprintf "BENIGN(id=%d) " (int_of_n (fst u)))) im.im_body end;
+            else if not (benign mag pn u || desig_ok mag u) then Buffer.add_string why (Printf.sprintf "BENIGN(id=%d) " (int_of_n (fst u)))) im.im_body end;
         (match im.im_tail with Some ((_, tu), dead) ->
            if not (is_terminator mag pn tu) then Buffer.add_string why "term ";
-           List.iter (fun (_, u) -> if not (dead_ok mag pn u || neutral_unit mag u) then Buffer.add_string why "dead ") dead
+           List.iter (fun (_, u) -> if not (dead_ok mag pn u || desig_ok mag u) then Buffer.add_string why "dead ") dead
          | None -> ())) (List.combine insts ims);
       prerr_endline ("NS because: " ^ Buffer.contents why) end;
     if not inclass then Buffer.add_string b "NS 0 "
-    else (pint 0; plist ptcue (cues_of s (zero_or (tmin peses None)) (zero_or (tmax peses None)))))
+    else (pint 0; plist ptcue (cues_of s (zero_or (tmin peses None)) (zero_or (tmax peses None)) (desig_final auto mag m))))
+
+(* C07, teletext as the source of conversions (Model/PlainTtx.v): ttxenc: plain cues -> the delivered list of ttx_enc (only
+   inside ttx_plain_ok, else NS); plainreadttx: delivered list -> ttx_dec; convplainttx: destination code, delivered list ->
+   convert_plain ttx_dec F_enc with the writers registered in Drv_plain *)
+let rdeliveries r = rlist (fun r -> let t = ropt_with rz r in let p = rstr r in (t, p)) r
+let () =
+  register "ttxenc" (fun r ->
+    let p = Drv_plain.rplain r in
+    if not (ttx_plain_okb p) then Buffer.add_string b "NS 0 " else
+    pres (plist (fun (t, d) -> popt_with pz t; pstr d)) (ttx_enc p));
+  register "plainreadttx" (fun r -> pres Drv_plain.pplain (ttx_dec (rdeliveries r)));
+  register "convplainttx" (fun r ->
+    let d = rint r in let ds = rdeliveries r in
+    pres pstr (convert_plain ttx_dec (Hashtbl.find Drv_plain.plain_writers d) ds))
